@@ -62,7 +62,7 @@ class C03(CtxCheck):
         return super().units(tier, seed) + adder_units(tier) + two_type_units(tier) + reent.units(tier) + compadds.units(tier)
 
     REENT_KEYS = {"reentrant", "stable", "visible"}
-    COMPADDS_KEYS = {"unchanged", "conflict", "teardown"}
+    COMPADDS_KEYS = {"unchanged", "conflict", "teardown", "stable"}
 
     def work(self, unit: dict, tier: str) -> dict:
         if "compadds" in unit:
